@@ -130,8 +130,11 @@ def _run_one(m):
                 "        r = verify_function(w, con, v)\n"
                 "        out.append({'target': t, 'error': r.error, 'bad': [[o.name, o.verdict] for o in r.obligations if o.verdict != 'discharged']})\n"
                 "print('RESULT' + json.dumps(out))\n") % (VERIF, m['targets'])
-        p = subprocess.run([sys.executable, '-c', code], env=env, capture_output=True, text=True,
-                           timeout=int(os.environ.get('VERIF_MUT_TIMEOUT', '900')))
+        for _attempt in range(3):
+            p = subprocess.run([sys.executable, '-c', code], env=env, capture_output=True, text=True,
+                               timeout=int(os.environ.get('VERIF_MUT_TIMEOUT', '900')))
+            if p.returncode >= 0:       # killed by a signal (libz3 segfault seen under the watchdog's interrupt): again
+                break
         res = None
         for line in p.stdout.splitlines():
             if line.startswith('RESULT'):
